@@ -273,7 +273,7 @@ def diag_case(draw):
     sub = draw(st.lists(st.integers(0, d - 1), unique=True, max_size=d))
     # how the positions are written: plain list, tuple, integer array, or counted from the end (the list addresses the cores the
     # python way)
-    return {'a': a, 'diag_list': sub, 'positions_form': draw(st.sampled_from(['list', 'list', 'tuple', 'ndarray', 'negative']))}
+    return {'a': a, 'diag_list': sub, 'core_scale': [draw(st.integers(0, d - 1)), draw(st.sampled_from([0, 0, 0, -15, -20, 12]))], 'positions_form': draw(st.sampled_from(['list', 'list', 'tuple', 'ndarray', 'negative']))}
 
 
 def body_diag(case):
@@ -281,6 +281,10 @@ def body_diag(case):
     a = build.make_tt(spec)
     d = a.order
     D = sorted(case['diag_list'])
+    ck, ce = case.get('core_scale', [0, 0])
+    if ce and not spec.get('int_dtype') and a.cores[ck].flags.writeable:
+        # the magnitude of the tensor is carried by the other cores: one core has entries of size 1e-15 / 1e-20 / 1e12
+        a.cores[ck] = a.cores[ck] * 10.0 ** ce
     x = dense.contract(a.cores).reshape(spec['rows'])
     form = case.get('positions_form', 'list')
     pos = list(case['diag_list'])
@@ -305,6 +309,8 @@ def body_diag(case):
         lab.add('diag_size1')
     if form != 'list' and D:
         lab.add('positions_' + form)
+    if ce and not spec.get('int_dtype'):
+        lab.add('one_core_of_other_magnitude')
     if not D:
         lab.add('diag_none')
     elif len(D) == d:
@@ -383,13 +389,18 @@ def qtt_case(draw):
     rows = [int(np.prod(f)) for f in rf]
     cols = [int(np.prod(f)) for f in cf]
     a = draw(gen.tt_spec(rows=rows, cols=cols, kind='given', max_rank=3))
-    return {'a': a, 'row_factors': rf, 'col_factors': cf, 'threshold': draw(st.sampled_from([0, 0, 1e-14]))}
+    return {'a': a, 'row_factors': rf, 'col_factors': cf, 'threshold': draw(st.sampled_from([0, 0, 1e-14, 1e-10])),
+            # the same operator in other units: the first core multiplied by 1e-10, 1e-13, 1e6 (the threshold of the split is relative)
+            'scale_exp': draw(st.sampled_from([0, 0, 0, -10, -13, 6]))}
 
 
 def body_qtt(case):
     spec = case['a']
     a = build.make_tt(spec)
     rf, cf = case['row_factors'], case['col_factors']
+    rescaled = bool(case.get('scale_exp', 0)) and not spec.get('int_dtype') and a.cores[0].flags.writeable
+    if rescaled:
+        a.cores[0] = a.cores[0] * 10.0 ** case['scale_exp']
     x = dense.contract(a.cores)
     scale = dense.scale_of(a.cores)
     # a negligible relative threshold only removes numerically zero directions of the split (generic cores: none)
@@ -417,6 +428,8 @@ def body_qtt(case):
         lab.add('rect_factors')
     if case.get('threshold', 0):
         lab.add('negligible_threshold')
+    if rescaled:
+        lab.add('rescaled')
     return lab
 
 
